@@ -1,10 +1,124 @@
 """C33 No well-formed request from an authenticated client crashes the server (E1 + E4)."""
-from ..panics import run_e1
+import re
+from ..panics import run_e1, stable_lit
+from ..rulelib import edges_where, unreachable_without
+from .C39 import make_table_auto
+from ..recursion import check_termination
 
 ENTRY = (r'^server::services::message_handler::MessageHandler::handle_message$'
          r'|^server::session::Session::(expire_stale_publish_requests|tick_subscriptions)$'
          r'|^server::comms::tcp_transport::TcpTransport::(process_message|process_open_secure_channel|process_close_secure_channel)$'
          r'|^server::comms::secure_channel_service::SecureChannelService::open_secure_channel$')
+
+
+def check_action_tables(ctx, rule='E6-history-actions'):
+    """the allow-list of encoding ids that node_id_to_historical_*_action accepts must be covered by the arms of the
+    match that decodes the details (its fallback arm is panic!())"""
+    db, r = ctx.db, ctx.r
+    for kind in ('read', 'update'):
+        lb = db.find_bodies(r'^server::services::attribute::AttributeService::node_id_to_historical_%s_action$' % kind)
+        dbs = db.find_bodies(r'^server::services::attribute::AttributeService::decode_history_%s_details$' % kind)
+        key = 'history_%s_actions' % kind
+        if not lb or not dbs:
+            r.lost(rule, key, 'node_id_to_historical_%s_action / decode_history_%s_details not found' % (kind, kind)); continue
+        allow = set()
+        for prom in lb[0].d.get('promoted_all') or []:
+            for loc, rv in prom:
+                if rv[0] == 'agg' and rv[1] == 'adt' and rv[2].endswith('ObjectId'):
+                    allow.add(rv[3])
+        b = dbs[0]; F = ctx.facts(b)
+        arms = set(); found = False
+        for bi, blk in enumerate(b.blocks):
+            t = blk['t']
+            if t[0] != 'switch':
+                continue
+            e = F.sym_operand(t[1])
+            if e[0] == 'discr' and e[2].endswith('ObjectId'):
+                found = True
+                names = F.variants_of(e[2])
+                for dst, lab in b.succ_edges(bi):
+                    if lab[0] == 'val' and names.get(lab[1]):
+                        arms.add(names.get(lab[1]))
+        if not allow or not found:
+            r.lost(rule, key, 'allow-list constant or match on ObjectId not recognised (allow=%d, match=%s)' % (len(allow), found)); continue
+        r.count('history_action_ids', r.counts.get('history_action_ids', 0) + len(allow))
+        missing = sorted(allow - arms)
+        if missing:
+            r.fail(rule, key, 'encoding id(s) accepted by node_id_to_historical_%s_action have no arm in decode_history_%s_details and fall '
+                   'into its panic!() arm: %s' % (kind, kind, ', '.join(missing)), loc=b.loc)
+        else:
+            r.ok(rule, key, 'all %d accepted encoding ids have a decoding arm' % len(allow), loc=b.loc)
+
+
+# callee -> {caller regex: (description, literal predicate over formatted literals)}: every call of the callee from inside the
+# reachable set must come from a listed caller, and must be cut off from the entry of that caller by the guard edges
+GUARDED_REVIEWED = {
+    'set_node_type': 'set_node_type(node, type) is called by add_node after the type definition was validated as an existing type node, '
+                     'which cannot be the node created in the same call',
+    'Builder::insert': 'builders are used by the server\'s own start-up / callback code with node ids in registered namespaces',
+}
+
+GUARDED = [
+    (r'^server::address_space::address_space::AddressSpace::insert_reference$',
+     'References::insert_reference panics on a self reference', {
+        r'^server::services::node_management::NodeManagementService::add_reference$':
+            ('source node differs from target node', [r'source_node_id ne .*target_node_id\.node_id$']),
+        r'^server::address_space::address_space::AddressSpace::set_node_type$': GUARDED_REVIEWED['set_node_type'],
+     }),
+    (r'^server::address_space::address_space::AddressSpace::insert$',
+     'AddressSpace::assert_namespace panics on an unregistered namespace index', {
+        r'^server::services::node_management::NodeManagementService::add_node$':
+            ('requested id is null (server assigns one in its own namespace) or its namespace is registered',
+             [r'is_namespace_index_valid\(.*requested_new_node_id.*\) == True$', r'is_null\(.*requested_new_node_id.*\) == True$']),
+        r'^server::address_space::(object::ObjectBuilder|variable::VariableBuilder|method::MethodBuilder|[a-z_]+::[A-Za-z]+Builder)::insert$': GUARDED_REVIEWED['Builder::insert'],
+     }),
+]
+
+
+def check_guarded_calls(ctx, par, rule='E2-guarded-call'):
+    db, cg, r = ctx.db, ctx.cg, ctx.r
+    n = 0
+    for callee_rx, what, allowed in GUARDED:
+        crx = re.compile(callee_rx)
+        targets = [i for i in par if crx.search(db.instances[i].path)]
+        if not targets:
+            r.lost(rule, 'callee:' + callee_rx, 'guarded callee not in the reachable set'); continue
+        tset = set(targets)
+        seen = set()
+        for i in par:
+            for e in cg.out.get(i, ()):
+                if e.dst not in tset or e.kind not in ('call', 'cha', 'generic', 'forward'):
+                    continue
+                src = db.instances[i].path
+                if crx.search(src):
+                    continue
+                b = db.bodies[db.instances[i].body_id]
+                key = 'guarded:%s<-%s' % (db.instances[e.dst].path.rsplit('::', 1)[-1], src)
+                if (key, e.bb) in seen:
+                    continue
+                seen.add((key, e.bb))
+                n += 1
+                spec = None; matched = False
+                for crx2, sp in allowed.items():
+                    if re.search(crx2, src):
+                        matched = True; spec = sp; break
+                t = b.term(e.bb)
+                loc = '%s:%s' % (t[6]['f'], t[6]['l']) if t[0] == 'call' else b.loc
+                if not matched:
+                    r.fail(rule, key, 'new caller of a function that panics on request data (%s) without a reviewed guard' % what, loc=loc)
+                    continue
+                if isinstance(spec, str):
+                    r.ok(rule, key, 'caller reviewed: ' + spec, status='safe', loc=loc)
+                    continue
+                desc, pats = spec
+                F = ctx.facts(b)
+                prx = [re.compile(p) for p in pats]
+                edges = edges_where(F, lambda lit: any(p.search(stable_lit(b, lit)) for p in prx))
+                if edges and unreachable_without(b, e.bb, edges):
+                    r.ok(rule, key, 'the call is only reachable through %d guard edge(s): %s' % (len(edges), desc), loc=loc)
+                else:
+                    r.fail(rule, key, 'the call is reachable without passing the guard (%s): %s' % (desc, what), loc=loc)
+    r.count('guarded_calls', n)
 
 
 def run(ctx):
@@ -15,5 +129,14 @@ def run(ctx):
                      'disposition with re-checked premises or caller scope, or a reason-only entry. E4: every recursion cycle in that '
                      'set needs a termination witness.')
     r.rule_text = 'E1 panic-site inventory x guard dominance x dispositions; E4 SCC witnesses'
-    run_e1(ctx, ENTRY)
+    run_e1(ctx, ENTRY, extra_auto=make_table_auto(ctx))
     r.floor('E1-panic', 'panic_sites', r.counts.get('panic_sites', 0), 150)
+    check_action_tables(ctx)
+    r.floor('E6-history-actions', 'history_action_ids', r.counts.get('history_action_ids', 0), 10)
+    # E4: recursion reachable from the same entry points
+    cg = ctx.cg
+    par = cg.reach(cg.instances_matching(ENTRY))
+    n = check_termination(ctx, par)
+    check_guarded_calls(ctx, par)
+    r.floor('E2-guarded-call', 'guarded_calls', r.counts.get('guarded_calls', 0), 4)
+    r.floor('E4-recursion', 'recursive_components', n, 8)
